@@ -122,7 +122,7 @@ def build_inputs(chk, n_pairs, n_triples):
 
 def run():
     global INPUTS
-    chk = Check("C16")
+    chk = Check("C16", level="exploration")
     mergedrv.quiet_logging()
     INPUTS = build_inputs(chk, 16 if chk.quick else 120, 6 if chk.quick else 60)
     r = tlc.run("RenderMatrix", CFG % len(INPUTS), workers=1, timeout=1800, name="RenderMatrix", xmx="8g")
